@@ -25,6 +25,8 @@ ASSUMPTIONS = ["expressions small enough for CPython's recursion limit: a series
                "outside the model)"]
 EXHAUSTIVE = {"quick": True, "thorough": True}
 
+MAX_PATHS = 200
+
 SIG_F8 = "grammar-string-rejected:duplicate-parallel-branches"
 SIG_STAR = "documented-string-rejected:star-inside-terminal-brackets"
 
@@ -59,6 +61,8 @@ def _derivations(rng, n, uni_share=0.1):
     for _ in range(n):
         uni = rng.random() < uni_share
         t = D.gen_tree(rng, rng.randint(0, 6), True, "par", uni)
+        while D.count_paths(t) > MAX_PATHS:      # `items` multiplies by 4: keep the path sets printable
+            t = D.gen_tree(rng, rng.randint(0, 5), True, "par", uni)
         t = D.add_brackets(rng, t, 0.15)
         yield t
 
